@@ -330,14 +330,27 @@ def execute(topo, op):
         return get_node(topo, op['node']).add_storage(name=op['name'], node_id=op.get('node_id'), **kw)
     if o == 'remove_component':
         return get_node(topo, op['node']).remove_component(op['name'])
+    if o == 'remove_storage':
+        return get_node(topo, op['node']).remove_storage(op['name'])
+    if o == 'copy_to_peer_labels':
+        return get_service(topo, op['service'], op.get('cached')).copy_to_peer_labels()
     if o == 'add_facility':
         ifs = None
         if op.get('interfaces') is not None:
             ifs = [(x[0], mk_value('labels', x[1]), mk_value('capacities', x[2])) for x in op['interfaces']]
+        if op.get('nstype'):
+            kw['nstype'] = ServiceType[op['nstype']]
+        if op.get('nslabels') is not None:
+            kw['nslabels'] = mk_value('labels', op['nslabels'])
         return topo.add_facility(name=op['name'], node_id=op.get('node_id'), site=op['site'], interfaces=ifs, **kw)
     if o == 'remove_facility':
         return topo.remove_facility(name=op['name'])
     if o == 'add_switch':
+        if op.get('nstype'):
+            kw['nstype'] = ServiceType[op['nstype']]
+        for k, kind in (('nslabels', 'labels'), ('portlabels', 'labels'), ('portcapacities', 'capacities')):
+            if op.get(k) is not None:
+                kw[k] = mk_value(kind, op[k])
         return topo.add_switch(name=op['name'], node_id=op.get('node_id'), site=op['site'], nports=op.get('nports', 8), **kw)
     if o == 'remove_switch':
         return topo.remove_switch(name=op['name'])
@@ -367,7 +380,7 @@ def execute(topo, op):
     if o == 'disconnect_interface':
         return get_service(topo, op['service'], op.get('cached')).disconnect_interface(get_iface(topo, op['iface']))
     if o == 'peer':
-        return get_service(topo, op['a'], op.get('cached')).peer(get_service(topo, op['b'], op.get('cached')))
+        return get_service(topo, op['a'], op.get('cached')).peer(get_service(topo, op['b'], op.get('cached')), **kw)
     if o == 'unpeer':
         return get_service(topo, op['a'], op.get('cached')).unpeer(get_service(topo, op['b'], op.get('cached')))
     if o == 'add_child_interface':
@@ -551,7 +564,7 @@ class Gen:
             if ids:
                 op['node_id'] = self.rng.choice(ids)
         if op['op'] in ('service_add_interface', 'service_remove_interface', 'connect_interface', 'disconnect_interface',
-                        'peer', 'unpeer', 'add_child_interface', 'remove_child_interface') and self.rng.random() < 0.4:
+                        'peer', 'unpeer', 'add_child_interface', 'remove_child_interface', 'copy_to_peer_labels') and self.rng.random() < 0.4:
             op['cached'] = True
         return op
 
@@ -601,7 +614,10 @@ class Gen:
             withc = [n for n in nodes if tm.components(n)]
             if withc:
                 n = r.choice(withc)
-                return {'op': 'remove_component', 'node': tm.name(n), 'name': tm.name(r.choice(tm.components(n)))}
+                c = r.choice(tm.components(n))
+                if tm.typ(c) == 'Storage' and r.random() < 0.5:
+                    return {'op': 'remove_storage', 'node': tm.name(n), 'name': tm.name(c)}
+                return {'op': 'remove_component', 'node': tm.name(n), 'name': tm.name(c)}
             return {'op': 'remove_component', 'node': r.choice(nnames), 'name': 'ghost'}
         if k < 41:
             op = {'op': 'add_facility', 'name': self.pick_name(nnames, 'fac'), 'node_id': self.maybe_id('fac'), 'site': r.choice(SITES)}
@@ -612,13 +628,20 @@ class Gen:
                 op['interfaces'] = [[self.fresh('fi'), {'vlan_range': '100-200'}, {'bw': 10}] for _ in range(r.randrange(1, 4))]
                 if len(op['interfaces']) > 1 and r.random() > self.p_valid:
                     op['interfaces'][-1][0] = op['interfaces'][0][0]
+            if r.random() < 0.2:
+                op.update(r.choice([{'nstype': 'VLAN'}, {'nslabels': {'local_name': 'fac-ns'}}, {'nstype': 'MPLS'}]))
             return op
         if k < 43:
             facs = [tm.name(n) for n in nodes if tm.typ(n) == 'Facility']
             return {'op': 'remove_facility', 'name': stale(facs, r.choice(nnames))}
         if k < 46:
-            return {'op': 'add_switch', 'name': self.pick_name(nnames, 'sw'), 'node_id': self.maybe_id('sw'), 'site': r.choice(SITES),
-                    'nports': r.choice([1, 2, 4])}
+            op = {'op': 'add_switch', 'name': self.pick_name(nnames, 'sw'), 'node_id': self.maybe_id('sw'), 'site': r.choice(SITES),
+                  'nports': r.choice([1, 2, 4])}
+            if r.random() < 0.3:
+                # the optional parameters of the convenience call
+                op.update(r.choice([{'nstype': 'MPLS'}, {'nslabels': {'local_name': 'sw-ns'}}, {'portlabels': {'local_name': 'px', 'vlan_range': '1-100'}},
+                                    {'portcapacities': {'bw': 25}}, {'kw': {'capacities': {'unit': 1}}}, {'kw': {'nosuchprop': 1}}]))
+            return op
         if k < 47:
             sws = [tm.name(n) for n in nodes if tm.typ(n) == 'Switch']
             return {'op': 'remove_switch', 'name': stale(sws, r.choice(nnames))}
@@ -680,7 +703,13 @@ class Gen:
         if k < 82:
             if len(top) >= 2:
                 a, b = r.sample(top, 2)
-                return {'op': 'peer', 'a': tm.name(a), 'b': tm.name(b)}
+                op = {'op': 'peer', 'a': tm.name(a), 'b': tm.name(b)}
+                if r.random() < 0.3:
+                    op['kw'] = r.choice([{'labels': {'vlan': '100'}}, {'capacities': {'bw': 10}}, {'labels': {'vlan': '100'}, 'capacities': {'bw': 1}},
+                                         {'nosuchprop': 1}])
+                return op
+            if top and r.random() < 0.5:
+                return {'op': 'copy_to_peer_labels', 'service': tm.name(r.choice(top))}
         if k < 84:
             pairs = []
             for s in top:
